@@ -233,6 +233,7 @@ def shards(tier):
     out += [("L2", i) for i in range(len(HEADS))]
     out += [("L3", i) for i in range(NCAT)]
     out += [("L3pair", i) for i in range(NCAT)]
+    out += [("L3remove", i) for i in range(NCAT)]
     out += [("L4", s) for s in seq_shards(spaces.SIGMA_DOC, 5 if tier == "quick" else 6)]
     out += [("big", n, v) for n in (bigdocs.SIZES_QUICK if tier == "quick" else bigdocs.SIZES_THOROUGH) for v in (0, 1)]
     return out
@@ -348,6 +349,33 @@ def run_shard(shard, tier, acc):
         text, exp = bigdocs.document(shard[1], shard[2])
         acc.count("big_documents")
         check_doc(text, exp, acc, f"big:{shard[1]}")
+    elif kind == "L3remove":
+        # remove every keyed block of a parsed document through an EQUAL COPY of it (second parse of the same text),
+        # then parse the document into the same library again: as into a new library
+        for gap in GAPS[:3]:
+            for second in range(NCAT):
+                ta, ea = build_doc((shard[1], second), (gap, "\n", "\n"))
+                acc.count("L3_remove_cases")
+                acc.trace(3)
+                acc.case(nontrivial_key=("remove", shard[1], second, gap))
+                case = {"text": ta, "level": "L3remove"}
+                try:
+                    lib = bibtexparser.parse_string(ta, parse_stack=[])
+                    twin = bibtexparser.parse_string(ta, parse_stack=[])
+                    for b in twin.blocks:
+                        lib.remove(b)
+                    lib = bibtexparser.parse_string(ta, parse_stack=[], library=lib)
+                except Exception as e:
+                    acc.exception(e, case, "remove(equal copy) / parse_string(library=...)")
+                    continue
+                obs = dialect.observed(lib)
+                if obs != ea:
+                    i, what = _diff(ea, obs)
+                    acc.violation(
+                        {"oracle": "blocks_as_written", "what": what, "level": "L3remove"},
+                        {"case": case, "observed": obs, "expected": ea, "first_difference_at_block": i},
+                        size=len(ta),
+                    )
     elif kind == "L3pair":
         # two documents parsed one after the other INTO THE SAME LIBRARY: the library holds the blocks of both
         for b_id in range(NCAT):
@@ -392,6 +420,15 @@ def finish(acc, tier):
 
 def replay(case, acc):
     text = case["text"]
+    if case.get("level") == "L3remove":
+        lib = bibtexparser.parse_string(text, parse_stack=[])
+        for b in bibtexparser.parse_string(text, parse_stack=[]).blocks:
+            lib.remove(b)
+        lib = bibtexparser.parse_string(text, parse_stack=[], library=lib)
+        exp = dialect.recognise(text) or []
+        if dialect.observed(lib) != exp:
+            acc.violation({"oracle": "blocks_as_written", "what": "remove", "level": "L3remove"}, {"case": case, "observed": dialect.observed(lib), "expected": exp})
+        return
     if "second_text" in case:
         lib = bibtexparser.parse_string(text, parse_stack=[])
         lib = bibtexparser.parse_string(case["second_text"], parse_stack=[], library=lib)
